@@ -64,6 +64,18 @@ def g_c08(rng, tier):
     if rng.random() < 0.35:
         return gen.gen_cf_case(rng, max_ops=big, warm=True, max_rows=12)
     c = gen.gen_ctx_case(rng, max_ops=big, warm=True, max_rows=12, swap_prob=0.16, fit_prob=0.06)
+    if rng.random() < 0.3 and len(c["ops"]) > 2:
+        # a training call that is rejected from inside training (another context width; for Clusters also fewer rows than clusters)
+        # somewhere in the history: the arm changes and queries after it must behave as if it had never been made
+        d = len(c["ops"][0][3][0]); a0 = c["ops"][0][1][0]
+        pos = rng.randint(1, len(c["ops"]) - 1)
+        if c.get("np") and c["np"][0] == "clusters" and rng.random() < 0.6:
+            bad = ("pfit" if rng.random() < 0.5 else "fit", [a0], [c["ops"][0][2][0]], gen.gen_ctx(rng, 1, d))
+            if bad[0] == "pfit":   # partial_fit appends to the history: only a refit has too few rows
+                bad = ("fit",) + bad[1:]
+        else:
+            bad = ("pfit", [a0, a0], [c["ops"][0][2][0]] * 2, gen.gen_ctx(rng, 2, d + 1))
+        c["ops"] = c["ops"][:pos] + [bad] + c["ops"][pos:]
     tree_rng = c["np"] is not None and c["np"][0] == "tree" and (c["lp"][0] == "thompson" or (c["lp"][0] == "greedy" and c["lp"][1] > 0))
     if rng.random() < 0.5 and not tree_rng:     # (TreeBandit policies that draw are modelled for one worker only: finding D7)
         # all n_jobs: the rows of a query are split among the workers; query sizes around the job count
@@ -73,8 +85,45 @@ def g_c08(rng, tier):
             c["ops"].append((rng.choice(["pred", "pexp"]), gen.gen_ctx(rng, m, d, 0, 4)))
     return c
 
+def g_c09_tie_after_warm(rng):
+    """the best arm's state is copied by warm_start into a cold arm that comes EARLIER in the arm list, after the bandit has
+    already been queried: an exact tie that predict must resolve in favour of the earlier arm"""
+    if rng.random() < 0.6:
+        c = gen.gen_cf_case(rng, kinds=["greedy", "ucb", "softmax", "popularity"], max_ops=0, warm=False, max_rows=20, foreign_decisions=False)
+        if c["lp"][0] == "greedy": c["lp"] = ("greedy", 0.0)
+    else:
+        c = gen.gen_ctx_case(rng, nps=["none"], lps=["lingreedy", "linucb"], max_ops=0, queries=False, arm_changes=False, max_rows=20)
+        if c["lp"][0] == "lingreedy": c["lp"] = ("lingreedy", 0.0) + tuple(c["lp"][2:])
+    fit = next((o for o in c["ops"] if o[0] in ("fit", "pfit")), None)
+    arms = list(c["arms"])
+    if fit is None or len(arms) < 2:
+        return None
+    cold = arms[0]; donor = rng.choice(arms[1:])
+    keep = [i for i, a in enumerate(fit[1]) if a != cold]
+    if not keep:
+        return None
+    ds = [fit[1][i] for i in keep]; rs = [fit[2][i] for i in keep]
+    # the donor gets the largest rewards
+    top = max([abs(r) for r in rs] + [1.0]) + 1.0
+    ds += [donor, donor]; rs += [top, top]
+    cx = None
+    if fit[3] is not None:
+        cx = [fit[3][i] for i in keep] + [list(fit[3][0]), list(fit[3][-1])]
+    d = None if cx is None else len(cx[0])
+    q = lambda m: None if d is None else gen.gen_ctx(rng, m, d)
+    dim = rng.randint(1, 3)
+    feats = {a: [float(rng.randint(1, 4)) + 0.25 * i for _ in range(dim)] for i, a in enumerate(arms)}
+    feats[cold] = list(feats[donor])
+    c = dict(c)
+    c["ops"] = [("fit", ds, rs, cx), ("pred", q(1)), ("pexp", q(2)), ("warm", arms, [feats[a] for a in arms], 1.0), ("pred", q(1)), ("pred", q(3)), ("pexp", q(1))]
+    return c
+
 def g_c09(rng, tier):
     """half of the cases force exact ties between arms (constant rewards, no bonus, untrained arms)"""
+    if rng.random() < 0.12:
+        c = g_c09_tie_after_warm(rng)
+        if c is not None:
+            return c
     ties = rng.random() < 0.5
     if rng.random() < 0.35:
         return gen.gen_cf_case(rng, max_ops=8, warm=True, ties=ties)
